@@ -81,6 +81,7 @@ type FuncEnc struct {
 	inlineName   string
 	trivial      int
 	relevant     map[string]bool
+	axioms       []axiomLine
 }
 
 func (fe *FuncEnc) sorts() *Sorts { return fe.eng.sorts }
@@ -160,6 +161,7 @@ func (fe *FuncEnc) reset() {
 	fe.usedAssumed = map[string]bool{}
 	fe.defers = nil
 	fe.notes = nil
+	fe.axioms = nil
 }
 
 // Encode generates all obligations of the function.
